@@ -1592,9 +1592,52 @@ def np_hstack(ctx, parts):
     return np_concatenate(ctx, parts)
 
 
+@lib('numpy.intersect1d')
+def np_intersect1d(ctx, a, b, **kw):
+    """Library contract for the idiom intersect1d(np.where(m1), np.where(m2)) on 1-D masks: np.where gives
+    the increasing, duplicate-free index sets, so their sorted unique intersection is np.where(m1 & m2)."""
+    if kw:
+        raise Unsupported('intersect1d keywords')
+    if not (isinstance(a, A.WhereIdx) and isinstance(b, A.WhereIdx)) or a.mask.ndim != 1 or b.mask.ndim != 1:
+        raise Unsupported('intersect1d of anything but two 1-D np.where index sets')
+    if not ctx.known(S.eq(a.mask.shape[0], b.mask.shape[0])):
+        raise Unsupported('intersect1d: index sets of arrays of different length')
+    ctx.assumptions.add('lib[exact]:intersect1d(where(m1), where(m2)) = where(m1 & m2) (1-D)')
+    return A.WhereIdx(A.elementwise(ctx, lambda p, q: S.and_(S.truth(p), S.truth(q)), [a.mask, b.mask], dtype='bool'))
+
+
+def _trapz_selection(ctx, y, x):
+    """np.trapz(y[sel], x[sel]) for the same 1-D selection sel on both: consecutive selected samples are
+    adjacent source samples exactly when the selection is contiguous - emitted as an obligation - and then
+    the result is sum_k [sel(k) and sel(k+1)] (x[k+1] - x[k]) (y[k] + y[k+1]) / 2."""
+    my, mx = y.mask, x.mask
+    n = my.shape[0]
+    if not ctx.known(S.eq(n, mx.shape[0])):
+        raise Unsupported('trapz over selections of different arrays')
+    q = ctx.fresh_int('selq')
+    same = z3.Implies(z3.And(q >= 0, q < S.z(n)), S.z(S.truth(my.at((q,)))) == S.z(S.truth(mx.at((q,)))))
+    if my is not mx and not ctx.known(same):
+        raise Unsupported('trapz over two different selections')
+    i, j, k = ctx.fresh_int('seli'), ctx.fresh_int('selj'), ctx.fresh_int('selk')
+    ctx.oblige('lib.trapz(selection)::selection_is_contiguous',
+               z3.Implies(z3.And(i >= 0, i < j, j < k, k < S.z(n), S.z(S.truth(my.at((i,)))), S.z(S.truth(my.at((k,))))),
+                          S.z(S.truth(my.at((j,))))), 'requires')
+    ctx.assumptions.add('lib[exact]:np.trapz over a contiguous selection = indicator-weighted trapezoid sum')
+
+    def body(t):
+        both = S.and_(S.truth(my.at((t,))), S.truth(my.at((S.add(t, 1),))))
+        trap = S.truediv(S.mul(S.sub(x.value(S.add(t, 1)), x.value(t)), S.add(y.value(t), y.value(S.add(t, 1)))), 2)
+        return S.ite(both, trap, 0)
+    return _sum_over(S.max_(S.sub(n, 1), 0), body)
+
+
 @lib('numpy.trapz')
 def np_trapz(ctx, y, x=None, dx=None):
     """sum_k (x[k+1] - x[k]) (y[k] + y[k+1]) / 2"""
+    if isinstance(y, A.Gather) and isinstance(x, A.Gather):
+        return _trapz_selection(ctx, y, x)
+    if isinstance(y, A.Gather) or isinstance(x, A.Gather):
+        raise Unsupported('trapz mixing a selection with a plain array / dx')
     y = arr(ctx, y)
     ys = y.snapshot()
     n = y.shape[0]
